@@ -266,3 +266,150 @@ impl<T: Chk> Chk for Vec<T> {
         self.iter().enumerate().find_map(|(i, x)| x.bad().map(|w| format!("item {}: {}", i, w)))
     }
 }
+
+// ---------------------------------------------------------------------------
+// additions for the infallible / saturating / wrapping part of the catalogue
+// ---------------------------------------------------------------------------
+
+fn rendered<T: Chk>(v: &T) -> String {
+    let mut s = String::new();
+    v.show(&mut s);
+    s
+}
+
+/// A plain number returned by an accessor / conversion, with the range its
+/// documentation gives (`lo = i128::MIN`, `hi = i128::MAX` when none is given).
+pub struct Num {
+    pub what: &'static str,
+    pub v: i128,
+    pub lo: i128,
+    pub hi: i128,
+}
+pub fn num(what: &'static str, v: impl Into<i128>, lo: i128, hi: i128) -> Num {
+    Num { what, v: v.into(), lo, hi }
+}
+pub fn anynum(what: &'static str, v: impl Into<i128>) -> Num {
+    Num { what, v: v.into(), lo: i128::MIN, hi: i128::MAX }
+}
+impl Chk for Num {
+    fn show(&self, s: &mut String) {
+        let _ = write!(s, "{}={}", self.what, self.v);
+    }
+    fn bad(&self) -> Option<String> {
+        if self.v < self.lo || self.v > self.hi {
+            return Some(format!("{} = {} outside {}..={}", self.what, self.v, self.lo, self.hi));
+        }
+        None
+    }
+}
+
+/// A result together with the value the documentation pins it to: the exact
+/// `i128` result of a wrapping / saturating operation, or the documented
+/// identity "`saturating_x` = `checked_x`, else the type's MIN / MAX". Compared
+/// by rendering (every public field). A `bad()` text that starts with `[tag]`
+/// makes the signature `<entry>/<tag>` instead of `<entry>/ok-out-of-range`.
+pub struct Pinned<T> {
+    pub got: T,
+    pub want: T,
+    pub tag: &'static str,
+}
+impl<T: Chk> Chk for Pinned<T> {
+    fn show(&self, s: &mut String) {
+        self.got.show(s);
+    }
+    fn bad(&self) -> Option<String> {
+        if let Some(w) = self.got.bad() {
+            return Some(w);
+        }
+        let (g, w) = (rendered(&self.got), rendered(&self.want));
+        if g != w {
+            return Some(format!("[{}] documented result {}", self.tag, w));
+        }
+        None
+    }
+}
+
+impl<A: Chk, B: Chk> Chk for (A, B) {
+    fn show(&self, s: &mut String) {
+        self.0.show(s);
+        s.push(' ');
+        self.1.show(s);
+    }
+    fn bad(&self) -> Option<String> {
+        self.0.bad().or_else(|| self.1.bad())
+    }
+}
+
+/// f64 with every NaN rendered alike (the payload of a NaN produced by 0/0 is
+/// not something the two build flavours have to agree on)
+pub struct F(pub f64);
+impl Chk for F {
+    fn show(&self, s: &mut String) {
+        if self.0.is_nan() {
+            s.push_str("f64:nan");
+        } else {
+            let _ = write!(s, "f64:{:016x}", self.0.to_bits());
+        }
+    }
+    fn bad(&self) -> Option<String> {
+        None
+    }
+}
+
+impl Chk for std::time::SystemTime {
+    fn show(&self, s: &mut String) {
+        match self.duration_since(std::time::SystemTime::UNIX_EPOCH) {
+            Ok(d) => {
+                let _ = write!(s, "st:+{}+{}", d.as_secs(), d.subsec_nanos());
+            }
+            Err(e) => {
+                let d = e.duration();
+                let _ = write!(s, "st:-{}+{}", d.as_secs(), d.subsec_nanos());
+            }
+        }
+    }
+    fn bad(&self) -> Option<String> {
+        None
+    }
+}
+
+/// one item of `TimeZone::preceding` / `TimeZone::following`
+pub struct Trans {
+    pub ts: Timestamp,
+    pub off: Offset,
+    pub dst: bool,
+    pub abbr: String,
+}
+impl Chk for Trans {
+    fn show(&self, s: &mut String) {
+        self.ts.show(s);
+        s.push(' ');
+        self.off.show(s);
+        let _ = write!(s, " dst:{} {}", self.dst as i8, self.abbr);
+    }
+    fn bad(&self) -> Option<String> {
+        self.ts.bad().or_else(|| self.off.bad())
+    }
+}
+
+/// `SignedDuration` from exact nanoseconds (None outside the type)
+pub fn sdur_from_ns(n: i128) -> Option<SignedDuration> {
+    let (s, r) = (n / NS, n % NS);
+    let s = i64::try_from(s).ok()?;
+    Some(SignedDuration::new(s, r as i32))
+}
+pub fn sdur_ns(d: SignedDuration) -> i128 {
+    d.as_secs() as i128 * NS + d.subsec_nanos() as i128
+}
+
+/// text produced by a `Display` / `Debug` impl: nothing to range-check, but it
+/// is part of the stream the two build flavours must agree on
+impl Chk for String {
+    fn show(&self, s: &mut String) {
+        s.push_str("str:");
+        s.push_str(self);
+    }
+    fn bad(&self) -> Option<String> {
+        None
+    }
+}
